@@ -1,10 +1,39 @@
-(* Properties_C17.v — statements are added as the proofs land (see DESIGN.md). *)
+(* Properties_C17.v — C17: reused marshallers / unmarshallers / cloners equal
+   fresh ones; items frame cleanly.
+   Codec level: Reset (Reuse.v, transcribed from the Go code) re-establishes the
+   initial state from ANY state, so a call on a reused instance is the call on
+   a fresh one over the remaining input.  Object level: the models of
+   obj.Marshaller / obj.Unmarshaller (Marshal.v, Unmarshal.v) are functions of
+   (atlas, type, value / tokens) and carry nothing from call to call — what the
+   real instances carry (machine stack, slab rows) is what the history suite
+   compares against fresh instances and the model.
+   Framing: statements are added when TranscodeProof.v lands. *)
 From Coq Require Import List ZArith.
-Require Import Tok GoVal Marshal Unmarshal.
+Require Import Tok CborEnc CborDec JsonEnc JsonDec GoVal Marshal Unmarshal Reuse.
 Import ListNotations.
 Open Scope Z_scope.
 
-Example C17_model_runs :
-  unmarshal_top [] (Atlas [] 0) GAny [Tok (ArrOpen 1) None; Tok (Uint 18446744073709551615) None; Tok ArrClose None] =
-  UTDone 3 (VAny (Some (GSlice GAny, VSlice (Some [VAny (Some (GNum U64, VNum 18446744073709551615))])))).
+Theorem C17_cbor_encoder_reuse : forall s ts, enc_call s ts = enc_tokens ts.
+Proof. reflexivity. Qed.
+Theorem C17_cbor_decoder_reuse : forall c s, dec_call c s = dec_run c (dinp s).
+Proof. reflexivity. Qed.
+Theorem C17_json_encoder_reuse : forall sh o s ts, jenc_call sh o s ts = jenc_tokens sh o ts.
+Proof. reflexivity. Qed.
+Theorem C17_json_decoder_reuse : forall s, jdec_call s = jdec_run (jdinp s).
+Proof. reflexivity. Qed.
+Print Assumptions C17_json_decoder_reuse.
+
+(* in particular after a call that failed in the middle of a nested item *)
+Example C17_after_failed_call :
+  let s := EncSt EArrDef [EMapDefKey; EAny] in      (* abandoned inside an array inside a map *)
+  enc_call s [Tok (Int 1) None] = enc_tokens [Tok (Int 1) None].
+Proof. reflexivity. Qed.
+
+(* two items back to back are read one per call, each call consuming only its own item *)
+Example C17_cbor_sequence :
+  dec_many 3 false [1; 130; 1; 2; 97; 120; 255] =
+  ([[Tok (Uint 1) None]; [Tok (ArrOpen 2) None; Tok (Uint 1) None; Tok (Uint 2) None; Tok ArrClose None]; [Tok (Str [120]) None]], [255]).
+Proof. vm_compute. reflexivity. Qed.
+Example C17_json_sequence :
+  jdec_many 2 [49; 50; 32; 91; 93; 123] = ([[Tok (Int 12) None]; [Tok (ArrOpen (-1)) None; Tok ArrClose None]], [123]).
 Proof. vm_compute. reflexivity. Qed.
